@@ -211,6 +211,11 @@ def render_free(stmts, r, opts=None):
             pieces = [(pre + pieces[0][0], pieces[0][1])] + pieces[1:]
             if gi:
                 sep = r.choice(["; ", ";", " ; "])
+                if o.get("empty_stmt") and r.random() < o["empty_stmt"]:
+                    # empty statements: consecutive ';' with or without blanks in between are
+                    # equivalent to a single ';'
+                    sep = r.choice(["; ; ", ";;", " ;  ; ", ";;; ", "; ;; "])
+                    out.feat("empty_statement_between_semicolons")
                 pieces = [(sep + pieces[0][0], pieces[0][1])] + pieces[1:]
             if logical:
                 last_text, last_kind = logical[-1]
